@@ -85,8 +85,8 @@ def gen_plan(wl, fr, idx):
         plan['prefit_axis'] = wl.choice((0, 1, '01'))
     ntasks = n0 * n1 if plan['axis'] == '01' else (n0 if plan['axis'] == 0 else n1)
     plan['n_jobs'] = wl.choice(sorted({1, 2, 3, ntasks, ntasks + 1}) + [-1])
-    if wl.random() < 0.2:
-        plan['array_variant'] = wl.choice(('fortran', 'strided', 'f32'))
+    if wl.random() < 0.25:
+        plan['array_variant'] = wl.choice(('fortran', 'strided', 'f32', 'swapview', 'revview'))
     plan['positional'] = wl.random() < 0.3
     plan['f_range_list'] = wl.random() < 0.2
     plan['fs_float'] = wl.random() < 0.2
@@ -156,6 +156,10 @@ def _variant(arr, v):
         return base[..., 1::2]
     if v == 'f32':
         return arr.astype(np.float32)
+    if v == 'swapview':                      # first two axes permuted in memory, logical shape unchanged
+        return np.swapaxes(np.ascontiguousarray(np.swapaxes(arr, 0, 1)), 0, 1)
+    if v == 'revview':                       # negative stride along the first axis
+        return arr[::-1].copy()[::-1]
     return arr
 
 
